@@ -2,7 +2,7 @@
   Line-protocol replay of M5 (ThreadTree).  Trace acceptance at the granularity of Model/ThreadTree.lean.
     run <id> m5
     call <t> spawn | spawn_orphan | stop <u> | join <u> <till|-> | join_all <u,u,..> <till|-> | release <u> | finish ok <v> | finish fail | main_stop
-    env fire <x>
+    env fire <x> | env expire <t>
     step <t> all+ <u> | all- <u> | snap <u> [c,..] | reg <c> <p> | unreg <c> <p> <True|False> | clear <p> | peek <p>
              | pstop <u> | stopped <u> | joiner <u> | waited <u> <True|False> | start <c> | snapall [u,..]
     ret <t> <kind> <result>
@@ -121,6 +121,13 @@ def feed (m : Sim) (ws : List String) : Except String Sim :=
   | ["env", "fire", x] => match x.toNat? with
     | some x => .ok { m with s := fireTill m.s x }
     | none => .error "bad till"
+  | ["env", "expire", t] => match t.toNat? with
+    | some t =>
+      -- the thread's sixty seconds are over; what it does then without touching anything shared is thread-local
+      let s1 := expire m.s t
+      let (s2, k) := closure 64 s1 t
+      .ok { m with s := s2, steps := m.steps + k }
+    | none => .error "bad thread"
   | "step" :: t :: lab =>
     match t.toNat? with
     | none => .error "bad thread"
